@@ -261,6 +261,44 @@ def check_limits_and_range(ctx):
                 ctx.violate(core.make_violation({'check': 'few-widths-kernel', 'what': problems[0].split(' ')[0]},
                                                 f'fit with a user kernel of {ncols} pore width(s), bspline_order={order}: {"; ".join(problems)} (widths {wg[:5]}, distribution {dist[:5]})',
                                                 {'widths': ncols, 'order': order}))
+    # the text form of a user kernel file: header labels padded with blanks (fixed-width exporters), exponent notation, CRLF line ends, a byte-order mark
+    sel_t = list(raw.columns[[8, 20, 35, 50, 65]])
+    Kt = None
+    wt_ = numpy.array([0.02, 0.01, 0.03, 0.015, 0.025])
+    for form in ('as written by pandas', 'labels padded on the right', 'labels padded on the left', 'labels in exponent notation', 'CRLF line ends', 'byte-order mark'):
+        ft = os.path.join(d1, 'kernel_text_' + form.replace(' ', '_') + '.csv')
+        sub_t = raw[sel_t]
+        if form == 'labels in exponent notation':
+            sub_t = sub_t.rename(columns={c_: f'{float(c_):.6e}' for c_ in sel_t})
+        text = sub_t.to_csv()
+        lines = text.split('\n')
+        if form == 'labels padded on the right':
+            lines[0] = ','.join(cell + '  ' for cell in lines[0].split(','))
+        elif form == 'labels padded on the left':
+            lines[0] = ','.join(('  ' + cell) if i_ else cell for i_, cell in enumerate(lines[0].split(',')))
+        text = '\n'.join(lines)
+        if form == 'CRLF line ends':
+            text = text.replace('\n', '\r\n')
+        with open(ft, 'w', newline='', encoding='utf-8-sig' if form == 'byte-order mark' else 'utf-8') as fh:
+            fh.write(text)
+        if Kt is None:
+            Kt = kernel_matrix(p, ft)
+        ld = (Kt * wt_[:, None]).sum(axis=0)
+        psd_kernel._LOADED.clear()
+        o = core.call(psd_dft_kernel_fit, p, ld, ft, 0, timeout=900)
+        ev += 1
+        if not o.ok:
+            if not core.is_pg(o.kind) or form == 'as written by pandas':
+                ctx.violate(core.make_violation({'check': 'user-kernel-text-form', 'form': form, 'what': 'raises'}, f'user kernel file, {form}: {o.brief()[:200]}', {'form': form}))
+            continue        # an open refusal of an unusual text form is not a wrong result
+        nt += 1
+        wg = list(numpy.asarray(o.value[0], dtype=float))
+        want_w = [float(c_) for c_ in sel_t]
+        if len(wg) != len(want_w) or max(abs(a_ - b_) for a_, b_ in zip(wg, want_w)) > 1e-6 * max(want_w) or \
+                float(((numpy.asarray(o.value[3]) - ld) ** 2).sum()) > 2e-4 * max(1.0, float((ld ** 2).sum())):
+            ctx.violate(core.make_violation({'check': 'user-kernel-text-form', 'form': form, 'what': 'wrong'},
+                                            f'user kernel file, {form}: widths {wg} (file has {want_w}); an exact combination of its isotherms '
+                                            f'{"is" if len(wg) == len(want_w) else "is not"} reproduced', {'form': form}, want_w, wg))
     # a user kernel whose widths are written in angstrom: ascending numbers, but not ascending as text ('10' < '4')
     fc = os.path.join(d1, 'kernel_angstrom.csv')
     sel = list(raw.columns[[5, 20, 40, 55, 65, 75]])
